@@ -80,6 +80,32 @@ CHECKS = {
             'iterchunks as detached copies; fit_frames incl. float arguments and a fixed list of large values.',
             'Trusted: frames_spec/fit_spec in dv/checks/c14.py as the reading of the property text.',
             'DESIGN.md section 4 C14'),
+    'C15': ('enum', 'exploration', E2,
+            'Array.copy over source types x all 14 dtype arguments x shapes incl. first axis 0 x chunklen x accessmode x metadata; '
+            'RaggedArray.copy over {no subarrays, only empty, mixed} x atoms x dtype arguments; independence by exhaustive '
+            'enumeration of every history up to depth 2 (quick) / 3 (thorough) over 6 mutating actions x {source, copy}; archive '
+            'over compression types x path form x existing archive x overwrite with tarfile extraction compared byte for byte.',
+            'Trusted: NumPy astype as cast reference; tarfile (stdlib) for extraction; recursive byte snapshot for "unchanged".',
+            'DESIGN.md section 4 C15'),
+    'C16': ('enum', 'exploration', E2,
+            'The complete product of foreign content kinds x locations x target kinds x call forms for both delete functions, and of '
+            '8 creating calls x 7 previous occupants x overwrite flag, judged by an lstat-level byte snapshot of the parent directory '
+            'including the outside targets of planted symlinks.',
+            'Trusted: the snapshot; symlinks carrying a Darr file name are left out as ambiguous.',
+            'DESIGN.md section 4 C16'),
+    'C18': ('enum', 'exploration', E2,
+            'Every single-field corruption of a valid descriptor (removed / retyped / invalid token / each shape corruption / every '
+            'other numtype / every proper prefix of the file / every wrong data-file length) on 7 base arrays incl. 1-byte types, '
+            'an empty array and both sub-arrays of a ragged array; a mutant is a case iff the independent decoder rejects it; all '
+            'entry points must raise and delete/truncate by path must raise TypeError and change nothing.',
+            'Trusted: dv/decoder.py as the arbiter of validity (differential oracle).',
+            'DESIGN.md section 4 C18'),
+    'C20': ('enum', 'exploration', E2,
+            'The complete product of 13 DataDir calls x every protected name of Array and RaggedArray (incl. absent metadata.json, '
+            'sub-directories and files beneath them) x 10 spellings x overwrite flag, multi-name delete_files lists, plus user-file '
+            'round-trips, overwrite refusal and exact deletion.',
+            'Trusted: recursive byte snapshot; symlinks to protected files are not among the spellings.',
+            'DESIGN.md section 4 C20'),
 }
 
 NOT_YET = {
